@@ -160,7 +160,7 @@ func c13Jobs(r *Rand, nonce string, g int, n int, hot []c13Job) []c13Job {
 	queries := func(i int) c13Job {
 		al := "c" + u + "i" + strconv.Itoa(i) // fresh alias: fresh column selector text inside the engine
 		f := "f" + nonce
-		switch r.Intn(18) {
+		switch r.Intn(19) {
 		case 0:
 			return c13Job{Kind: "query", Tag: "q-filter", Text: "SELECT id, name AS " + al + " FROM users WHERE ((age > " + strconv.Itoa(r.Range(18, 50)) + ") AND (name LIKE '" + Pick(r, []string{"a%", "%e", "b__", "%"}) + "'))"}
 		case 1:
@@ -193,6 +193,8 @@ func c13Jobs(r *Rand, nonce string, g int, n int, hot []c13Job) []c13Job {
 			return c13Job{Kind: "query", Tag: "q-async-subquery", Text: "SELECT id, (SELECT ASYNC.C13ECHO(p) AS e FROM items) AS " + al + " FROM users"}
 		case 15: // subquery inside the ON clause: evaluated by the join's goroutines, which share the query
 			return c13Job{Kind: "query", Tag: "q-parallel-join-exists", Text: "SELECT `x.id` AS a, `y.oid` AS " + al + " FROM users AS x PARALLEL JOIN orders AS y ON ((`x.id` <= `y.uid`) AND (EXISTS (SELECT * FROM `<-.vals` WHERE (v > " + strconv.Itoa(r.Intn(3)) + "))))"}
+		case 17: // an ON clause that FAILS for every left key: all join goroutines report an error at once
+			return c13Job{Kind: "query", Tag: "q-parallel-join-failing-on", Text: "SELECT `x.id` AS a, `y.oid` AS " + al + " FROM users AS x PARALLEL " + Pick(r, []string{"JOIN", "LEFT JOIN"}) + " orders AS y ON (((`x.id` <= `y.uid`) AND (`y.total` > `x.age`)) AND `y.missing`)"}
 		case 16:
 			return c13Job{Kind: "query", Tag: "q-star-await", Text: "SELECT *, (SELECT AWAIT(`q.e`) AS r FROM (SELECT ASYNC.C13SLOW(id) AS e) AS q) AS " + al + " FROM users"}
 		default:
